@@ -6,7 +6,7 @@ From ApolloVerif Require Import Base.Chars Lex.Item Lex.Spec Lex.Fun Lex.LexProo
   Parse.TrackerInst Parse.SilentInst Parse.EntryEnd Parse.Terminates Parse.Compose Parse.RefGrammar Parse.RefLib
   Parse.RefLenient Parse.RefLenientProofs Parse.RefLinkBase Parse.RefLinkLoops Parse.RefLinkType Parse.RefLinkValue
   Parse.RefLinkExec Parse.RefLinkSel Parse.RefLinkEntry Parse.RefLinkLex Parse.RefLinkDefs Parse.RefLinkTS
-  Parse.RefLinkDoc.
+  Parse.RefLinkDoc Parse.RefLinkTree Parse.RefLinkKinds.
 
 (* what the link assumes of an item list; every lex_all s satisfies it *)
 Definition rl_items_ok (items : list item) : Prop := Forall rl_item_ok items /\ eof_terminated items.
@@ -238,3 +238,45 @@ Proof.
   unfold rl_known_witness.
   split; [rl_witness|]. split; [rl_witness|]. split; [rl_witness|]. split; [rl_witness|]. rl_witness.
 Qed.
+
+(* ================================================================== C05: the definitions in the tree (kinds) *)
+Lemma rl_run_result_tree fuel (g : nat -> PM unit) dbg rl items r :
+  p_run_with fuel g dbg rl items = POk r ->
+  exists u s', g fuel (p_init_state dbg rl items) = POk (u, s') /\ pr_errors r = rev (ps_errors s') /\
+               pb_finish (ps_builder s') = POk (pr_tree r).
+Proof.
+  unfold p_run_with, p_finish. destruct (g fuel (p_init_state dbg rl items)) as [[u s']| |]; try discriminate.
+  destruct (pb_finish _) as [t| |] eqn:Ef; try discriminate. intros [= <-]. eauto.
+Qed.
+
+(* the definition nodes under the DOCUMENT root are, in order, of the kinds of the relaxed grammar's definitions *)
+Theorem rl_document_kinds_items dbg rl items r ts ds : rl_items_ok items ->
+  parse_document_items dbg rl items = POk r -> pr_errors r = [] ->
+  rg_significant items = Some ts -> rgl_document rgl_parser ts = Some ds ->
+  p_tree_def_kinds (pr_tree r) = map fst ds.
+Proof.
+  intros Hok E He Hsig Hq. destruct (rl_run_result_tree _ _ _ _ _ _ E) as (u & s' & Eg & Herr & Hfin).
+  rewrite Herr in He. apply (proj1 (rl_rev_nil _)) in He.
+  destruct (rl_stream_of_significant _ _ Hok Hsig) as [Hstr <-]. apply rgl_document_some in Hq.
+  destruct (rl_document_tree_kinds _ _ _ _ _ _ _ Hstr Eg He Hq) as (cs & Hc & Hk).
+  unfold pb_finish in Hfin. rewrite Hc in Hfin. injection Hfin as <-. exact Hk.
+Qed.
+
+Theorem rl_document_kinds_source : forall dbg rl s r ts ds,
+  parse_document_items dbg rl (lex_all s) = POk r -> pr_errors r = [] ->
+  rg_significant (lex_all s) = Some ts -> rgl_document rgl_parser ts = Some ds ->
+  p_tree_def_kinds (pr_tree r) = map fst ds.
+Proof. intros dbg rl s r ts ds. apply rl_document_kinds_items. apply rl_lex_all_items_ok. Qed.
+
+(* when both accept: the kinds read off the parser's tree are the reference's *)
+Theorem rl_document_kinds_agree : forall dbg rl s r ts ds,
+  parse_document_items dbg rl (lex_all s) = POk r -> pr_errors r = [] ->
+  rg_significant (lex_all s) = Some ts -> rg_document ts = Some ds ->
+  p_tree_def_kinds (pr_tree r) = map fst ds.
+Proof.
+  intros dbg rl s r ts ds E He Hsig Hq. eapply rl_document_kinds_source; eauto. apply rgl_sub_document. exact Hq.
+Qed.
+
+(* non-vacuity data: the kinds in the tree of the model's run on a sample, computed *)
+Definition rl_tree_kinds_of (o : poutcome presult) : option (list rg_defkind) :=
+  match o with POk r => Some (p_tree_def_kinds (pr_tree r)) | _ => None end.
